@@ -6,7 +6,7 @@ _CLS = {}
 
 def cls_for(sep):
     import implutil
-    key = (sep, implutil.ADV)
+    key = (sep, implutil.ADV, implutil.BASE)
     if key not in _CLS:
         _CLS[key] = type("SepNode", (implutil.adv(AnyNode),), {"separator": sep})
     return _CLS[key]
